@@ -7,6 +7,7 @@ the same driver with the caller's strandedness, node storage keeps sequence / ex
 the step function itself (complete decision table, as in C02.1): the neighbour it hands to the walk is the k-mer the
 recorded extension denotes, looked up under the caller's strandedness, and only when it is present and available."""
 from .. import dt_compress, dt_tables
+from . import common
 
 ASSUMPTIONS = ["extensions are symmetric (presupposed by the property)"]
 
@@ -19,3 +20,7 @@ def run(F, rep):
     rep.run(dt_compress.hash_driver_table, F, rep, "C01.4")
     rep.run(dt_compress.entry_points_table, F, rep, "C01.4")
     rep.run(dt_compress.node_storage_rules, F, rep, "C01.5")
+    # "its single strand representative when unstranded": the step function moves to min_rc_flip of the neighbour; the canonical-form
+    # tables decide that operation for every k-mer type (odd K, self-complementary arms) — a wrong representative is a k-mer that is
+    # not in the table
+    rep.run(common.run_kmer_lemmas, F, rep, {"canon"})
